@@ -33,7 +33,7 @@ RULE = ('fault enumeration over inputs: well-formed files (spec-serialized '
         'Non-trivial = input differs from its well-formed base; distinct = '
         'fingerprint of the input bytes.')
 FLOOR = {'quick': 20000, 'thorough': 500000}
-REQUIRED_REACH = ['DiffXReader._read_header', 'DiffXDOMReader.parse']
+REQUIRED_REACH = ['reader.py:', 'dom/reader.py:']
 REQUIRED_COUNTERS = ['reader_outcome:parse_error', 'reader_outcome:completed',
                      'dom_outcome:library_error', 'stream_closed_checked',
                      'failpoints_injected']
